@@ -443,6 +443,38 @@ def _eligibility(ck, behaviours, execute, rule="C08.4", wiring=True):
                  found=ast.unparse(a) if a is not None else "None", required="maxDifference")
 
 
+def _no_early_exit(ck, fn, loops, rule):
+    """every group is visited: the loops over the groups are left neither by `break` nor by a `return` inside them"""
+    bad = []
+    for lp in loops:
+        stack = list(lp.body)
+        while stack:
+            n = stack.pop()
+            if isinstance(n, (ast.FunctionDef, ast.Lambda, ast.ClassDef)):
+                continue
+            if isinstance(n, ast.Break):
+                bad.append((n, "break"))
+            elif isinstance(n, ast.Return):
+                bad.append((n, "return"))
+            if isinstance(n, (ast.For, ast.While)):
+                # a break inside a nested loop belongs to that loop - which is itself one of `loops` and judged on its own;
+                # a return still leaves all of them
+                stack.extend(x for b in n.body + n.orelse for x in ast.walk(b) if isinstance(x, ast.Return))
+                continue
+            stack.extend(ast.iter_child_nodes(n))
+    seen = set()
+    for n, kind in bad:
+        if id(n) in seen:
+            continue
+        seen.add(id(n))
+        ck.violation(rule, short(fn) + ":early-exit", where(fn, n), f"the loop over the groups of rows is left by `{kind}`: the rows of "
+                     "every group that would have come later (other queries, other references) are neither joined nor kept - "
+                     "they disappear from every output file", found=f"`{kind}` at line {n.lineno}",
+                     required="`continue` (or nothing): every group is visited")
+    if not bad:
+        ck.ok(rule, short(fn) + ":early-exit", fn.where, f"{len(loops)} loop(s) over row groups: no break / return inside")
+
+
 def _resolve_conservation(ck):
     ctx = ck.ctx
     p = ctx.p
@@ -457,6 +489,7 @@ def _resolve_conservation(ck):
             or not isinstance(inner.target.elts[1], ast.Name):
         raise AnalysisError(f"{fn.where}: innermost `for key, group in groupby(...)` loop not found")
     gname = inner.target.elts[1].id
+    _no_early_exit(ck, fn, loops, "C08.5")
     rets = [n for n in ast.walk(fn.node) if isinstance(n, ast.Return) and isinstance(n.value, ast.Tuple)]
     if not rets or not all(isinstance(e, ast.Name) for e in rets[-1].value.elts) or len(rets[-1].value.elts) != 2:
         raise AnalysisError(f"{fn.where}: `return joined, separate` not found")
